@@ -890,6 +890,11 @@ class sptensor:
         >>> S.innerprod(K)
         3.0
         """
+        if isinstance(other, ttb.sptensor) and self.shape != other.shape:
+            assert False, "Sptensors must be same shape for innerproduct"
+        if isinstance(other, ttb.tensor) and self.shape != other.shape:
+            assert False, "Sptensor and tensor must be same shape for innerproduct"
+
         # If all entries are zero innerproduct must be 0
         if self.nnz == 0:
             return 0
